@@ -153,6 +153,9 @@ def _load_helper_coeffs(
                 in_orb = 0
                 coeffs.extend(cols)
 
+    if not coeffs:
+        # An empty section, e.g. $COEFF_BETA of a wavefunction without beta orbitals.
+        return np.zeros((nbasis, 0), float), np.array(energies), irreps
     return np.hstack(coeffs), np.array(energies), irreps
 
 
